@@ -322,13 +322,61 @@ func (e *L2Env) L2Obs(tr L2Track, r ExecResult) Ov {
 		res = ol(OS{"OK"}, rv)
 	}
 	ctx := e.Ctx
-	n1, err := e.K.GetNextL1Sequence(ctx)
+	// Observables with a public gRPC query are read through the real Querier (what relayers and
+	// users see); the keeper state is read as well and every difference is recorded in
+	// e.QueryDiffs for the model-free monitors (l2QueryMonitor).
+	n1k, err := e.K.GetNextL1Sequence(ctx)
 	if err != nil {
 		panic(err)
 	}
-	n2, err := e.K.GetNextL2Sequence(ctx)
+	n2k, err := e.K.GetNextL2Sequence(ctx)
 	if err != nil {
 		panic(err)
+	}
+	n1, n2 := n1k, n2k
+	if e.Q != nil {
+		diff := func(format string, a ...interface{}) {
+			if len(e.QueryDiffs) < 50 {
+				e.QueryDiffs = append(e.QueryDiffs, fmt.Sprintf(format, a...))
+			}
+		}
+		if r, err := e.Q.NextL1Sequence(ctx, &opchildtypes.QueryNextL1SequenceRequest{}); err != nil {
+			diff("Query/NextL1Sequence fails: %v", err)
+		} else if n1 = r.NextL1Sequence; n1 != n1k {
+			diff("Query/NextL1Sequence answers %d, the handler expects %d", n1, n1k)
+		}
+		if r, err := e.Q.NextL2Sequence(ctx, &opchildtypes.QueryNextL2SequenceRequest{}); err != nil {
+			diff("Query/NextL2Sequence fails: %v", err)
+		} else if n2 = r.NextL2Sequence; n2 != n2k {
+			diff("Query/NextL2Sequence answers %d, the next withdrawal gets %d", n2, n2k)
+		}
+		for _, d := range tr.Denoms {
+			stored, serr := e.K.DenomPairs.Get(ctx, d)
+			r, qerr := e.Q.BaseDenom(ctx, &opchildtypes.QueryBaseDenomRequest{Denom: d})
+			if (serr == nil) != (qerr == nil) || (qerr == nil && r.BaseDenom != stored) {
+				diff("Query/BaseDenom(%s) = (%v, %v), stored denom pair = (%q, %v)", d, r, qerr, stored, serr)
+			}
+		}
+		if ps, err := e.K.GetParams(ctx); err == nil {
+			if r, qerr := e.Q.Params(ctx, &opchildtypes.QueryParamsRequest{}); qerr != nil || r.Params.String() != ps.String() {
+				diff("Query/Params differs from the stored params (%v)", qerr)
+			}
+		}
+		bi, berr := e.K.BridgeInfo.Get(ctx)
+		if r, qerr := e.Q.BridgeInfo(ctx, &opchildtypes.QueryBridgeInfoRequest{}); (berr == nil) != (qerr == nil) || (qerr == nil && r.BridgeInfo.String() != bi.String()) {
+			diff("Query/BridgeInfo differs from the stored bridge info (%v / %v)", qerr, berr)
+		}
+		if vals, err := e.K.GetAllValidators(ctx); err == nil {
+			if r, qerr := e.Q.Validators(ctx, &opchildtypes.QueryValidatorsRequest{}); qerr != nil || len(r.Validators) != len(vals) {
+				diff("Query/Validators differs from the stored validators (%v)", qerr)
+			} else {
+				for i := range vals {
+					if vals[i].String() != r.Validators[i].String() {
+						diff("Query/Validators[%d] differs from the stored validator", i)
+					}
+				}
+			}
+		}
 	}
 	var bals, sups, prs, sqs, wevs, devs []Ov
 	for _, a := range tr.Accts {
